@@ -1,8 +1,10 @@
 /-
 C13, one more error kind: `UndeclaredVariableMacro v` names a variable the program text really refers to.  When the
-assembler model reports it, `$v` occurs literally in the scope that reports it (the program itself or one of its nested
-`%include` scopes): in an operand, in an argument of an invocation, or inside the body of one of the scope's instruction
-or expression macro definitions.
+assembler model reports it, in the scope that reports it (the program itself or one of its nested `%include` scopes)
+either `$v` occurs literally — in an operand, in an argument of an invocation, or inside the body of one of the scope's
+instruction or expression macro definitions — or `v` is a PARAMETER of one of the scope's expression macro definitions
+(an invocation with fewer arguments than parameters names the first parameter left without argument, whether or not
+the body reads it: `fix:` 841db2a, D28).
 -/
 import EtkVerif.Asm.ErrorKinds2
 namespace EtkVerif
@@ -38,6 +40,13 @@ def AOps.mentionsVar (v : String) : AOps → Bool
   | .nil => false
   | .cons h t => h.mentionsVar v || t.mentionsVar v
 end
+
+/-- `v` is a parameter of the expression macro the statement defines.  Only top-level definition statements of a scope
+enter its macro table (`declareMacros`; a definition inside an instruction macro's body is ignored when the body is
+fed), so this does not look into `.instrDef` bodies. -/
+def AOp.declaresParam (v : String) : AOp → Bool
+  | .exprDef _ params _ => params.contains v
+  | _ => false
 
 /-! ### variables of expressions: what substitution and label renaming do to them -/
 
@@ -147,6 +156,13 @@ end
 def TableMentions (ms : List (String × MacroDef)) (v : String) : Prop :=
   ∃ n ps b, lookupMacro ms n = some (.expr ps b) ∧ b.mentionsVar v = true
 
+/-- some expression macro of the table has the parameter `v` -/
+def TableParam (ms : List (String × MacroDef)) (v : String) : Prop :=
+  ∃ n ps b, lookupMacro ms n = some (.expr ps b) ∧ v ∈ ps
+
+/-- `$v` is read by the body of an expression macro of the table, or `v` is a parameter of one -/
+def TableNames (ms : List (String × MacroDef)) (v : String) : Prop := TableMentions ms v ∨ TableParam ms v
+
 theorem eval_arith_undefVar {f : Nat} {c : Ctx} {a b : Expr} {v : String} {g : Int → Int → Except EvErr Int}
     (h : (match eval f c a with
       | .error e => Except.error e
@@ -175,13 +191,14 @@ theorem eval_arith_undefVar {f : Nat} {c : Ctx} {a b : Expr} {v : String} {g : I
       exact absurd h (hg x y)
 
 /-- `eval` / `evalArgs`: `undefinedVariable v` means `$v` occurs in the expression evaluated or in the body of an
-expression macro of the table (bodies are evaluated in callee frames) -/
+expression macro of the table (bodies are evaluated in callee frames), or `v` is a parameter of an expression macro of
+the table (of the one being applied, for `evalArgs`) that an invocation left without argument -/
 theorem eval_undefVar_aux : ∀ f,
     (∀ (c : Ctx) (e : Expr) (v : String), eval f c e = .error (.undefinedVariable v) →
-      e.mentionsVar v = true ∨ TableMentions c.macros v) ∧
+      e.mentionsVar v = true ∨ TableNames c.macros v) ∧
     (∀ (c : Ctx) (params : List String) (args : Exprs) (v : String),
       evalArgs f c params args = .error (.undefinedVariable v) →
-      args.mentionsVar v = true ∨ TableMentions c.macros v) := by
+      args.mentionsVar v = true ∨ v ∈ params ∨ TableNames c.macros v) := by
   intro f
   induction f with
   | zero =>
@@ -191,7 +208,7 @@ theorem eval_undefVar_aux : ∀ f,
   | succ f ih =>
     have arith : ∀ (c : Ctx) (a b : Expr) (v : String),
         (eval f c a = .error (.undefinedVariable v) ∨ eval f c b = .error (.undefinedVariable v)) →
-        (a.mentionsVar v || b.mentionsVar v) = true ∨ TableMentions c.macros v := by
+        (a.mentionsVar v || b.mentionsVar v) = true ∨ TableNames c.macros v := by
       intro c a b v h
       rcases h with h | h
       · rcases ih.1 c a v h with h | h
@@ -250,21 +267,27 @@ theorem eval_undefVar_aux : ∀ f,
               rw [hea] at h
               simp only [Except.error.injEq] at h
               subst h
-              exact ih.2 c params args v hea
+              rcases ih.2 c params args v hea with hb | hb | hb
+              · exact Or.inl hb
+              · exact Or.inr (Or.inr ⟨name, params, body, hlk, hb⟩)
+              · exact Or.inr hb
             | ok vs =>
               rw [hea] at h
               simp only [] at h
               split at h
               · simp at h
               · rcases ih.1 { c with vars := some vs, depth := c.depth + 1 } body v h with hb | hb
-                · exact Or.inr ⟨name, params, body, hlk, hb⟩
+                · exact Or.inr (Or.inl ⟨name, params, body, hlk, hb⟩)
                 · exact Or.inr hb
     · intro c params args v h
       cases params with
       | nil => simp [evalArgs] at h
       | cons p ps =>
         cases args with
-        | nil => simp [evalArgs] at h
+        | nil =>
+          simp only [evalArgs, Except.error.injEq, EvErr.undefinedVariable.injEq] at h
+          subst h
+          exact Or.inr (Or.inl (List.mem_cons_self ..))
         | cons a as =>
           simp only [evalArgs] at h
           simp only [Exprs.mentionsVar]
@@ -275,7 +298,7 @@ theorem eval_undefVar_aux : ∀ f,
             subst h
             rcases ih.1 c a v hea with h | h
             · left; simp [h]
-            · exact Or.inr h
+            · exact Or.inr (Or.inr h)
           | ok x =>
             rw [hea] at h
             simp only [] at h
@@ -284,23 +307,25 @@ theorem eval_undefVar_aux : ∀ f,
               rw [heb] at h
               simp only [Except.error.injEq] at h
               subst h
-              rcases ih.2 c ps as v heb with h | h
+              rcases ih.2 c ps as v heb with h | h | h
               · left; simp [h]
-              · exact Or.inr h
+              · exact Or.inr (Or.inl (List.mem_cons_of_mem _ h))
+              · exact Or.inr (Or.inr h)
             | ok rest => rw [heb] at h; simp at h
 
 /-- the evaluator-level fact, spelled out -/
 theorem eval_undefinedVariable (f : Nat) (ls : List (String × Option Nat)) (ms : List (String × MacroDef))
     (vars : Option (List (String × Int))) (d : Nat) (e : Expr) (v : String)
     (h : eval f ⟨ls, ms, vars, d⟩ e = .error (.undefinedVariable v)) :
-    e.mentionsVar v = true ∨ ∃ n ps b, lookupMacro ms n = some (.expr ps b) ∧ b.mentionsVar v = true :=
+    e.mentionsVar v = true ∨ (∃ n ps b, lookupMacro ms n = some (.expr ps b) ∧ b.mentionsVar v = true) ∨
+      ∃ n ps b, lookupMacro ms n = some (.expr ps b) ∧ v ∈ ps :=
   (eval_undefVar_aux f).1 ⟨ls, ms, vars, d⟩ e v h
 
 /-! ### the invariant: every variable the assembler state can still evaluate satisfies `P` -/
 
 def DefIn (P : String → Prop) : MacroDef → Prop
   | .instr _ body => ∀ o ∈ body, AOpIn P o
-  | .expr _ b => ExprIn P b
+  | .expr ps b => ExprIn P b ∧ ∀ p ∈ ps, P p
 
 def TableIn (P : String → Prop) (ms : List (String × MacroDef)) : Prop :=
   ∀ n d, lookupMacro ms n = some d → DefIn P d
@@ -341,9 +366,10 @@ theorem resIn_error {P : String → Prop} {e : AsmErr} (h : ∀ v, e = .undeclar
 
 theorem eval_in {P : String → Prop} {f : Nat} {c : Ctx} {e : Expr} {v : String} (ht : TableIn P c.macros)
     (he : ExprIn P e) (h : eval f c e = .error (.undefinedVariable v)) : P v := by
-  rcases (eval_undefVar_aux f).1 c e v h with hv | ⟨n, ps, b, hlk, hv⟩
+  rcases (eval_undefVar_aux f).1 c e v h with hv | ⟨n, ps, b, hlk, hv⟩ | ⟨n, ps, b, hlk, hv⟩
   · exact he v hv
-  · exact ht n _ hlk v hv
+  · exact (ht n _ hlk).1 v hv
+  · exact (ht n _ hlk).2 v hv
 
 theorem mapErr_undefVar {err : EvErr} {v : String} (h : mapErr err = .undeclaredVariableMacro v) :
     err = .undefinedVariable v := by
@@ -528,9 +554,13 @@ theorem lookupMacro_mem_table {ms : List (String × MacroDef)} {n : String} {d :
     simp only [Option.map_some, Option.some.injEq] at h
     exact ⟨p, List.mem_of_find?_eq_some hf, h⟩
 
+/-- every parameter the statement declares satisfies `P` -/
+def AOpParamsIn (P : String → Prop) (o : AOp) : Prop := ∀ v, o.declaresParam v = true → P v
+
 /-- every entry of the table `declareMacros` builds is the definition of an `.instrDef` / `.exprDef` statement -/
 theorem declareMacros_in {P : String → Prop} : ∀ (l : List RawOp) (ms0 ms : List (String × MacroDef)),
-    declareMacros l ms0 = .ok ms → (∀ p ∈ ms0, DefIn P p.2) → (∀ o, RawOp.op o ∈ l → AOpIn P o) →
+    declareMacros l ms0 = .ok ms → (∀ p ∈ ms0, DefIn P p.2) →
+    (∀ o, RawOp.op o ∈ l → AOpIn P o ∧ AOpParamsIn P o) →
     ∀ p ∈ ms, DefIn P p.2 := by
   intro l
   induction l with
@@ -541,7 +571,8 @@ theorem declareMacros_in {P : String → Prop} : ∀ (l : List RawOp) (ms0 ms : 
     exact h0
   | cons x rest ih =>
     intro ms0 ms h h0 hl
-    have hrest : ∀ o, RawOp.op o ∈ rest → AOpIn P o := fun o ho => hl o (List.mem_cons_of_mem _ ho)
+    have hrest : ∀ o, RawOp.op o ∈ rest → AOpIn P o ∧ AOpParamsIn P o :=
+      fun o ho => hl o (List.mem_cons_of_mem _ ho)
     cases x with
     | op o =>
       cases o with
@@ -556,7 +587,7 @@ theorem declareMacros_in {P : String → Prop} : ∀ (l : List RawOp) (ms0 ms : 
           · simp only [List.mem_singleton] at hp
             subst hp
             intro o ho v hv
-            exact hl _ (List.mem_cons_self ..) v
+            exact (hl _ (List.mem_cons_self ..)).1 v
               (by simp only [AOp.mentionsVar]; exact AOps.mentionsVar_of_mem v body o ho hv)
       | exprDef n ps body =>
         simp only [declareMacros] at h
@@ -568,8 +599,11 @@ theorem declareMacros_in {P : String → Prop} : ∀ (l : List RawOp) (ms0 ms : 
           · exact h0 p hp
           · simp only [List.mem_singleton] at hp
             subst hp
-            intro v hv
-            exact hl _ (List.mem_cons_self ..) v (by simp only [AOp.mentionsVar]; exact hv)
+            refine ⟨?_, ?_⟩
+            · intro v hv
+              exact (hl _ (List.mem_cons_self ..)).1 v (by simp only [AOp.mentionsVar]; exact hv)
+            · intro v hv
+              exact (hl _ (List.mem_cons_self ..)).2 v (by simp only [AOp.declaresParam, List.contains_iff_mem]; exact hv)
       | op code imm => simp only [declareMacros] at h; exact ih _ ms h h0 hrest
       | label l => simp only [declareMacros] at h; exact ih _ ms h h0 hrest
       | push ex => simp only [declareMacros] at h; exact ih _ ms h h0 hrest
@@ -578,7 +612,7 @@ theorem declareMacros_in {P : String → Prop} : ∀ (l : List RawOp) (ms0 ms : 
     | raw bs => simp only [declareMacros] at h; exact ih _ ms h h0 hrest
 
 theorem declareMacros_tableIn {P : String → Prop} {l : List RawOp} {ms : List (String × MacroDef)}
-    (h : declareMacros l [] = .ok ms) (hl : ∀ o, RawOp.op o ∈ l → AOpIn P o) : TableIn P ms := by
+    (h : declareMacros l [] = .ok ms) (hl : ∀ o, RawOp.op o ∈ l → AOpIn P o ∧ AOpParamsIn P o) : TableIn P ms := by
   intro n d hlk
   obtain ⟨p, hp, rfl⟩ := lookupMacro_mem_table hlk
   exact declareMacros_in l [] ms h (by intro p hp; cases hp) hl p hp
@@ -817,17 +851,20 @@ theorem ops_vars (rnd : Nat → Nat) (P : String → Prop) : ∀ f,
 
 /-! ### the steps induction through nested scopes -/
 
-/-- `$v` occurs in a top-level statement of the program or of one of its nested scopes -/
+/-- `$v` occurs in a top-level statement of the program or of one of its nested scopes, or `v` is a parameter of an
+expression macro such a statement defines -/
 def VarProv (ops : RawOps) (v : String) : Prop :=
-  ∃ (sub : RawOps) (o : AOp), SubScope sub ops ∧ RawOp.op o ∈ sub.toList ∧ o.mentionsVar v = true
+  ∃ (sub : RawOps) (o : AOp), SubScope sub ops ∧ RawOp.op o ∈ sub.toList ∧
+    (o.mentionsVar v = true ∨ o.declaresParam v = true)
 
 theorem VarProv.nested {inner ops : RawOps} {v : String}
     (hmem : RawOp.scope inner ∈ ops.toList) (h : VarProv inner v) : VarProv ops v := by
   obtain ⟨sub, o, hsub, rest⟩ := h
   exact ⟨sub, o, SubScope.nested sub inner ops hmem hsub, rest⟩
 
-/-- `$w` occurs in a top-level statement of the scope -/
-def ScopeMentions (ops : RawOps) (w : String) : Prop := ∃ o, RawOp.op o ∈ ops.toList ∧ o.mentionsVar w = true
+/-- `$w` occurs in a top-level statement of the scope, or `w` is a parameter of an expression macro it defines -/
+def ScopeMentions (ops : RawOps) (w : String) : Prop :=
+  ∃ o, RawOp.op o ∈ ops.toList ∧ (o.mentionsVar w = true ∨ o.declaresParam w = true)
 
 theorem varProv_steps (rnd : Nat → Nat) (v : String) : ∀ f,
     (∀ k ops, assemble rnd f { fresh := k } ops = .error (.undeclaredVariableMacro v) → VarProv ops v) ∧
@@ -864,9 +901,11 @@ theorem varProv_steps (rnd : Nat → Nat) (v : String) : ∀ f,
         rw [hdm] at h
         simp only [] at h
         have hall : ∀ o, RawOp.op o ∈ ops.toList → AOpIn (ScopeMentions ops) o :=
-          fun o ho w hw => ⟨o, ho, hw⟩
+          fun o ho w hw => ⟨o, ho, Or.inl hw⟩
+        have hallp : ∀ o, RawOp.op o ∈ ops.toList → AOpIn (ScopeMentions ops) o ∧ AOpParamsIn (ScopeMentions ops) o :=
+          fun o ho => ⟨hall o ho, fun w hw => ⟨o, ho, Or.inr hw⟩⟩
         have hs0 : StIn (ScopeMentions ops) { macros := ms, fresh := k } :=
-          ⟨declareMacros_tableIn hdm hall, by intro i hi; cases hi⟩
+          ⟨declareMacros_tableIn hdm hallp, by intro i hi; cases hi⟩
         have hF := ihF (ScopeMentions ops) { macros := ms, fresh := k } ops hs0 hall
         have fromP : ScopeMentions ops v → VarProv ops v := by
           rintro ⟨o, ho, hv⟩
@@ -944,10 +983,12 @@ theorem varProv_steps (rnd : Nat → Nat) (v : String) : ∀ f,
           · exact Or.inl hp
           · exact Or.inr ⟨inner, by simp only [RawOps.toList]; exact List.mem_cons_of_mem _ hmem, hp⟩
 
-/-- C13, `UndeclaredVariableMacro v`: `$v` occurs literally in the scope that reports it -/
+/-- C13, `UndeclaredVariableMacro v`: `$v` occurs literally in the scope that reports it, or `v` is a parameter of an
+expression macro that scope defines (an invocation left it without argument) -/
 theorem undeclaredVariable_provenance (rnd : Nat → Nat) (fuel k : Nat) (ops : RawOps) (v : String)
     (h : assemble rnd fuel { fresh := k } ops = .error (.undeclaredVariableMacro v)) :
-    ∃ (sub : RawOps) (o : AOp), SubScope sub ops ∧ RawOp.op o ∈ sub.toList ∧ o.mentionsVar v = true :=
+    ∃ (sub : RawOps) (o : AOp), SubScope sub ops ∧ RawOp.op o ∈ sub.toList ∧
+      (o.mentionsVar v = true ∨ o.declaresParam v = true) :=
   (varProv_steps rnd v fuel).1 k ops h
 
 end Asm
